@@ -376,18 +376,23 @@ impl C11 {
             ];
             for (tn, m, sg) in &tam {
                 let input = with_signal(m, sg);
-                let mut verdict = false;
-                let fa = ffi::verify_rln_proof(pair.ctx, &buf(&input), &mut verdict);
+                // the caller's verdict variable holds the OPPOSITE of what the Rust API says before each call: a callee
+                // that reports success must have written it
+                let opposite = |vb: &VResult| !matches!(vb, VResult::True);
                 let vb = v_tree(&pair.b, &input);
+                let mut verdict = opposite(&vb);
+                let fa = ffi::verify_rln_proof(pair.ctx, &buf(&input), &mut verdict);
                 n += 1;
                 cmp_verdict(&mut out, &case, "verify_rln_proof", tn, fa, verdict, &vb);
-                let fa = ffi::verify(pair.ctx, &buf(m), &mut verdict);
                 let vb = v_raw(&pair.b, m);
+                verdict = opposite(&vb);
+                let fa = ffi::verify(pair.ctx, &buf(m), &mut verdict);
                 n += 1;
                 cmp_verdict(&mut out, &case, "verify", tn, fa, verdict, &vb);
                 for (rn, rs) in &roots_sets {
-                    let fa = ffi::verify_with_roots(pair.ctx, &buf(&input), &buf(rs), &mut verdict);
                     let vb = v_roots(&pair.b, &input, rs);
+                    verdict = opposite(&vb);
+                    let fa = ffi::verify_with_roots(pair.ctx, &buf(&input), &buf(rs), &mut verdict);
                     n += 1;
                     cmp_verdict(&mut out, &case, "verify_with_roots", &format!("{tn}.{rn}"), fa, verdict, &vb);
                 }
